@@ -24,7 +24,7 @@ sys.setrecursionlimit(3000)
 TRANSLATORS = ["tr_lexer.py", "tr_parser_tables.py", "tr_generator_tables.py", "tr_ast.py", "tr_state.py", "tr_litspec.py"]
 
 FORBIDDEN = re.compile(
-    r"\b(Admitted|admit|Axiom|Axioms|Parameter|Parameters|Conjecture|Conjectures|Hypothesis|Hypotheses)\b"
+    r"\b(Admitted|admit|Axiom|Axioms|Parameter|Parameters|Conjecture|Conjectures)\b"
     r"|Unset\s+Guard|bypass_check|type-in-type|impredicative-set|Admit\s+Obligations|native_compute")
 
 ALLOWED_AXIOMS = set()   # every property theorem is expected to be closed under the global context
@@ -68,8 +68,16 @@ def scan_forbidden():
                 # strip comments (non-nested approximation is enough: nested comments are not used)
                 txt2 = re.sub(r"\(\*.*?\*\)", "", txt, flags=re.S)
                 for m in FORBIDDEN.finditer(txt2):
-                    # Section-local Variable/Hypothesis are fine; only the listed words are scanned.
                     bad.append(f"{os.path.relpath(p, VERIF)}: {m.group(0)}")
+                # Variable / Hypothesis / Context are fine inside a Section and declare an axiom outside one
+                depth = 0
+                for line in txt2.splitlines():
+                    if re.match(r"\s*Section\s+\w+\s*\.", line):
+                        depth += 1
+                    elif re.match(r"\s*End\s+\w+\s*\.", line):
+                        depth = max(0, depth - 1)
+                    elif depth == 0 and re.match(r"\s*(#\[[^\]]*\]\s*)?(Local\s+|Global\s+)?(Variable|Variables|Hypothesis|Hypotheses|Context)\b", line):
+                        bad.append(f"{os.path.relpath(p, VERIF)}: {line.strip()[:60]} (outside a section)")
     return bad
 
 
